@@ -303,13 +303,15 @@ impl<K: KeyT> SetRunner<K> {
             ("drain", 2) => {
                 let mut out = Held::new(Vec::new());
                 {
+                    let total = m.len();
                     let mut d = m.drain();
                     for _ in 0..n(0) {
-                        match d.next() {
+                        match crate::exec::next_exact(&mut d, total - out.get().len()) {
                             Some(x) => out.get_mut().push(x),
                             None => break,
                         }
                     }
+                    crate::exec::check_exact(&d, total - out.get().len());
                     if n(1) == 1 {
                         std::mem::forget(d);
                     }
@@ -320,13 +322,15 @@ impl<K: KeyT> SetRunner<K> {
                 let old = std::mem::replace(m, new_set());
                 let mut out = Held::new(Vec::new());
                 {
+                    let total = old.len();
                     let mut it = old.into_iter();
                     for _ in 0..n(0) {
-                        match it.next() {
+                        match crate::exec::next_exact(&mut it, total - out.get().len()) {
                             Some(x) => out.get_mut().push(x),
                             None => break,
                         }
                     }
+                    crate::exec::check_exact(&it, total - out.get().len());
                 }
                 fmt_es(out.get())
             }
@@ -724,6 +728,7 @@ impl<K: KeyT> Runner for SetRunner<K> {
             Err(p) => panic_class(p),
         };
         quiet();
+        let own_flags = crate::exec::own_flags_take();
         let evs = tape::peek_events();
         if let Some(why) = self.ledger_step(name, args, &evs) {
             ret.push_str(&format!(" ORACLE-LEDGER({})", why.replace(' ', "_")));
@@ -767,6 +772,7 @@ impl<K: KeyT> Runner for SetRunner<K> {
         }
         // `clone_to_other` modifies the other collection; the state printed is always the target's
         let st = set_state(self.get(tgt));
+        ret.push_str(&own_flags);
         format!("{} ; {} ; {} ; {}", ret, st, tape::take_events(), tape::counters())
     }
     fn dump(&self, tgt: &str) -> Dump {
